@@ -257,6 +257,11 @@ class Interp:
     def e_Constant(self, n, env):
         return n.value
 
+    def e_NamedExpr(self, n, env):
+        v = self.ev(n.value, env)
+        self.bind(n.target, v, env)
+        return v
+
     def e_Name(self, n, env):
         if n.id in env:
             return env[n.id]
@@ -341,6 +346,8 @@ class Interp:
 
     def e_BinOp(self, n, env):
         a, b = self.ev(n.left, env), self.ev(n.right, env)
+        if isinstance(n.op, ast.Mult) and a is b and isinstance(a, (I, Aff)) and not isinstance(a, D):
+            return as_iv(a).sqr()          # one and the same value (a local read twice, (d := e) * d): a square
         if isinstance(n.op, ast.Mult) and isinstance(a, (I, Aff)) and isinstance(b, (I, Aff)) and not isinstance(a, D) and text(n.left) == text(n.right) \
                 and not any(isinstance(c, ast.Call) and (access_path(c.func) or "").split(".")[-1] in ("uniform", "random") for c in ast.walk(n.left)):
             return as_iv(a).sqr()          # e * e with the same sub-expression is a square
@@ -527,10 +534,23 @@ class Interp:
         if isinstance(target, ast.Name):
             env[target.id] = value
         elif isinstance(target, (ast.Tuple, ast.List)):
+            if not isinstance(value, (list, tuple)):
+                raise Unsupported("unpacking of %r" % (value,))
             vals = list(value)
-            if len(vals) != len(target.elts):
+            stars = [i for i, t in enumerate(target.elts) if isinstance(t, ast.Starred)]
+            if len(stars) == 1 and len(vals) >= len(target.elts) - 1:
+                i = stars[0]
+                tail = len(target.elts) - i - 1
+                mid = vals[i:len(vals) - tail]
+                vals = vals[:i] + [mid] + vals[len(vals) - tail:] if tail else vals[:i] + [mid]
+                elts = [t.value if isinstance(t, ast.Starred) else t for t in target.elts]
+            elif stars:
                 raise Unsupported("unpacking")
-            for t, v in zip(target.elts, vals):
+            else:
+                elts = target.elts
+            if len(vals) != len(elts):
+                raise Unsupported("unpacking")
+            for t, v in zip(elts, vals):
                 self.bind(t, v, env)
         elif isinstance(target, ast.Subscript) and isinstance(target.slice, ast.Slice):
             base = self.ev(target.value, env)
